@@ -16,7 +16,7 @@ import (
 )
 
 func init() {
-	extraGroups = append(extraGroups, Group{Out: "C09Facts.lean", Imports: []string{"OidcModel.Model.C09"}, NS: "GenC09", Extra: c09Facts})
+	extraGroups = append(extraGroups, Group{Out: "C09Facts.lean", Imports: []string{"OidcModel.Model.C09", "OidcModel.Model.C09Bounds", "OidcModel.Model.C09Fields"}, NS: "GenC09", Extra: c09Facts})
 }
 
 var c09Dirs = []string{"pkg/oidc", "pkg/oidc/grants", "pkg/oidc/grants/tokenexchange", "pkg/op", "pkg/http", "pkg/crypto", "pkg/strings",
@@ -330,6 +330,9 @@ var c09Pins = [][3]string{
 	{"pkg/oidc/userinfo.go", "Bool.UnmarshalJSON", "BoolUnmarshalJSON_skeleton"},
 	{"pkg/http/marshal.go", "MarshalJSONWithStatus", "MarshalJSONWithStatus_skeleton"},
 	{"pkg/op/auth_request.go", "AuthResponseFormPost", "AuthResponseFormPost_skeleton"},
+	// functions with an audited slice / index expression (Proofs/C09Bounds.lean)
+	{"pkg/crypto/hash.go", "HashString", "HashString_skeleton"},
+	{"pkg/op/device.go", "NewUserCode", "NewUserCode_skeleton"},
 }
 
 func c09Facts(g *genCtx) string {
@@ -390,6 +393,16 @@ func c09Facts(g *genCtx) string {
 	}
 	b.WriteString("/-- locals declared without a value, assigned only inside function literals, used outside of them -/\ndef closureAssigned : List (String × String) := [" + strings.Join(cas, ", ") + "]\n\n")
 	g.facts["C09.closureAssigned"] = ca
+
+	b.WriteString(c09BoundFacts(g))
+	b.WriteString(c09FieldFacts(g))
+	ng := c09NilGuards(g)
+	var ngs []string
+	for _, u := range ng {
+		ngs = append(ngs, "("+leanStr(u[0])+", "+leanStr(u[1])+")")
+	}
+	b.WriteString("/-- pointer parameters / receivers tested for nil (with a return) before the first selection through them -/\ndef nilGuardedParams : List (String × String) := [\n  " + strings.Join(ngs, ",\n  ") + "]\n\n")
+	g.facts["C09.nilGuardedParams"] = ng
 
 	b.WriteString("/-! statement skeletons of the hand-modelled functions (pins) -/\n")
 	for _, p := range c09Pins {
